@@ -31,7 +31,7 @@ Print Assumptions C18_fields.
 (* a field without a replace tag keeps its name, its type (as Dumper.TypeLit renders it) and its tag, byte for byte *)
 Theorem C18_field_unreplaced : forall L target c repl f,
     lookup (f_name f) repl = None ->
-    apply_replace L target c repl f = mk_gfield (f_name f) (fst (type_lit L target c (f_ty f))) (f_tag f).
+    apply_replace L target c repl f = mk_gfield (f_name f) (fst (field_type_lit L target c (f_ty f))) (f_tag f).
 Proof. exact apply_replace_unreplaced. Qed.
 Print Assumptions C18_field_unreplaced.
 
@@ -56,6 +56,65 @@ Theorem C18_types : forall L target c imps,
       denotes imps target (fst (type_lit L target c t)) t = true.
 Proof. exact type_lit_denotes. Qed.
 Print Assumptions C18_types.
+
+(* the same for the expression a FIELD's type is rendered as (snippet.ID(f.Type())): a type that is an alias is printed by
+   the alias's own name, which denotes it; an alias below the top level is printed through its right-hand side (the
+   C18_types clause above: an alias and its right-hand side are the same type).  That the expanded spelling can be
+   WRITTEN in the target package (no type of an `internal` package, no unexported name) is Go's visibility rule, not part
+   of this model: it is observed by compiling (known finding nested_alias_of_unnameable_type) *)
+Theorem C18_field_types : forall L target c imps,
+    (forall p n, In (p, n) imps -> n = L p) ->
+    NoDup (map snd imps) ->
+    forall t,
+      (fx_errlit c = true \/ no_error t = true) ->
+      fhas_iface_lit t = false ->
+      fimported L target imps t ->
+      denotes imps target (fst (field_type_lit L target c t)) t = true.
+Proof. exact field_type_lit_denotes. Qed.
+Print Assumptions C18_field_types.
+
+Theorem C18_field_type_imports : forall L target c t,
+    snd (field_type_lit L target c t) = filter (fun p => negb (bytes_eqb p target)) (fty_pkgs t).
+Proof. exact field_type_lit_imports. Qed.
+Print Assumptions C18_field_type_imports.
+
+(* a field typed by an alias of anything but a named type is assigned, replaced or not: createFieldSnippet has no case
+   for *types.Alias (an alias of a named type is treated as that named type: C18_copy_foreign_named, C18_copy_replaced_named) *)
+Theorem C18_copy_alias_field : forall L target c b f p n r,
+    f_ty f = TAlias p n r ->
+    (forall pkg name u ms, unalias r <> TNamed pkg name u ms) -> unalias r <> TError ->
+    field_stmt L target c b f = GOk (SAssign (f_name f)) [].
+Proof. exact alias_field_assigned. Qed.
+Print Assumptions C18_copy_alias_field.
+
+(* before the repair fixes/C18-replace-on-alias-field.diff no alias was looked through: a replaced field typed by an alias of
+   a named struct was assigned (`out.A = in.A` with the replacement's type on the right: does not compile) *)
+Theorem C18_copy_replaced_alias_refuted_before_fix : forall L target c f p n r,
+    f_ty f = TAlias p n r ->
+    field_stmt_gen L target c false true f = GOk (SAssign (f_name f)) [].
+Proof. exact replaced_alias_refuted_before_fix. Qed.
+Print Assumptions C18_copy_replaced_alias_refuted_before_fix.
+
+(* non-vacuity: `Items origin.Items` with `type Items = []hid.Item` (hid below origin/internal) keeps the alias name and is
+   assigned; `Spec origin.InnerA` (alias of a struct) under a replace tag is converted by the replacement's DeepCopyIntoAs;
+   below the top level (`[]origin.Item`, `type Item = hid.Item`) the right-hand side is printed - the same type *)
+Example C18_example_alias_fields :
+  let hid := bs "example.com/m/origin/internal/hid" in
+  let items := TAlias w_origin (bs "Items") (TSlice (TNamed hid (bs "Item") UStruct [])) in
+  let item := TAlias w_origin (bs "Item") (TNamed hid (bs "Item") UStruct []) in
+  let innera := TAlias w_origin (bs "InnerA") (TNamed w_origin (bs "Inner") UStruct []) in
+  let imps := [(w_origin, bs "origin"); (hid, bs "hid")] in
+  field_type_lit last_segment w_target all_fixed items = (OSel (bs "origin") (bs "Items"), [w_origin]) /\
+  field_stmt last_segment w_target all_fixed false (mk_field (bs "Items") items []) = GOk (SAssign (bs "Items")) [] /\
+  field_stmt last_segment w_target all_fixed true (mk_field (bs "Spec") innera [])
+    = GOk (SCallInto (bs "Spec") dc_into_name) [] /\
+  field_stmt_gen last_segment w_target all_fixed false true (mk_field (bs "Spec") innera []) = GOk (SAssign (bs "Spec")) [] /\
+  field_type_lit last_segment w_target all_fixed (TSlice item) = (OSlice (OSel (bs "hid") (bs "Item")), [hid]) /\
+  denotes imps w_target (OSel (bs "origin") (bs "Items")) items = true /\
+  denotes imps w_target (OSlice (OSel (bs "hid") (bs "Item"))) items = true /\
+  denotes imps w_target (OSlice (OSel (bs "hid") (bs "Item"))) (TSlice item) = true /\
+  denotes imps w_target (OSlice (OSel (bs "origin") (bs "Item"))) (TSlice item) = true.
+Proof. cbv zeta. repeat split; vm_compute; reflexivity. Qed.
 
 (* known finding unnamed_method_interface_rendered_any: the guard above is needed *)
 Theorem C18_types_refuted_method_interface : forall L target c imps txt,
@@ -117,14 +176,14 @@ Print Assumptions C18_copy.
    error types … *)
 Theorem C18_copy_unreplaced_plain : forall L target c f s j,
     field_stmt L target c false f = GOk s j ->
-    (forall pkg name u ms, f_ty f <> TNamed pkg name u ms) ->
+    (forall pkg name u ms, unalias (f_ty f) <> TNamed pkg name u ms) ->
     is_call s = false.
 Proof. exact unreplaced_not_call. Qed.
 Print Assumptions C18_copy_unreplaced_plain.
 
 (* … none for foreign named types that have no DeepCopyAs / DeepCopyIntoAs method (time.Duration, time.Time, …) … *)
 Theorem C18_copy_foreign_named : forall L target c f pkg name u ms s j,
-    f_ty f = TNamed pkg name u ms ->
+    unalias (f_ty f) = TNamed pkg name u ms ->
     bytes_eqb pkg target = false ->
     no_as_methods ms = true ->
     field_stmt L target c false f = GOk s j ->
@@ -134,7 +193,7 @@ Print Assumptions C18_copy_foreign_named.
 
 (* … and a replaced field of a named type is converted by the replacement's DeepCopyIntoAs *)
 Theorem C18_copy_replaced_named : forall L target c f pkg name u ms s j,
-    f_ty f = TNamed pkg name u ms ->
+    unalias (f_ty f) = TNamed pkg name u ms ->      (* a named type, or an alias of one *)
     field_stmt L target c true f = GOk s j ->
     s = SCallInto (f_name f) dc_into_name.
 Proof. exact replaced_named_into. Qed.
@@ -298,13 +357,18 @@ Theorem Copy_c17_is_c18_field_stmt : forall L target c, fx_errnil c = true ->
 Proof. exact field_stmt_agree. Qed.
 Print Assumptions Copy_c17_is_c18_field_stmt.
 
-(* outside the common domain the statement depends on the top-level constructor only (the Go type switch) *)
-Theorem Copy_outside_common_domain : forall L target c f b,
+(* outside the common domain the statement depends on the top-level constructor only (the Go type switch); alias types
+   are not part of C17's model at all (C18_copy_alias_field, C18_copy_foreign_named, C18_copy_replaced_named say what is
+   selected for them); the guard of the predeclared error's nil package is only needed for an alias of error *)
+Theorem Copy_outside_common_domain : forall L target c,
+    fx_errnil c = true ->
+    forall f b,
     fty17 L target c (f_ty f) = None ->
     exists s i, field_stmt L target c b f = GOk s i /\
       match f_ty f with
       | TSlice _ => exists o, s = SCopySlice (f_name f) o
       | TMap _ _ => exists o, s = SCopyMap (f_name f) o
+      | TAlias _ _ _ => True
       | _ => s = SAssign (f_name f)
       end.
 Proof. exact outside_domain_stmt. Qed.
